@@ -647,22 +647,24 @@ fn stmt_ccy(which: &str, slot: &str) -> &'static str {
 }
 
 fn mt940() -> Model {
-    let base = body_of("940", ":20:REF1\n:25:/ACC1\n:28C:1/1\n:60F:C250615EUR100,00\n:61:250615C10,00NTRFREF1\n:62F:C250615EUR110,00\n:64:C250615EUR110,00\n:65:C250616EUR110,00");
-    let dims = vec![("currency-deviation", s(&["none", "same-prefix-other-code", "closing", "available", "forward"]))];
+    let base = body_of("940", ":20:REF1\n:25:/ACC1\n:28C:1/1\n:60F:C250615EUR100,00\n:61:250615C10,00NTRFREF1\n:62F:C250615EUR110,00\n:64:C250615EUR110,00\n:65:C250616EUR110,00\n:65:C250617EUR110,00\n:65:C250618EUR110,00");
+    let dims = vec![("currency-deviation", s(&["none", "same-prefix-other-code", "closing", "available", "forward", "forward-middle", "forward-last"]))];
     let render = move |l: Labels| -> Value {
         let mut j = base.clone();
         j["62F"]["currency"] = json!(stmt_ccy(l[0], "closing"));
         j["64"]["currency"] = json!(stmt_ccy(l[0], "available"));
         j["65"][0]["currency"] = json!(stmt_ccy(l[0], "forward"));
+        j["65"][1]["currency"] = json!(stmt_ccy(l[0], "forward-middle"));
+        j["65"][2]["currency"] = json!(stmt_ccy(l[0], "forward-last"));
         j
     };
-    let expected = |l: Labels| -> BTreeSet<String> { if ["closing", "available", "forward"].contains(&l[0]) { set(&["C27"]) } else { BTreeSet::new() } };
+    let expected = |l: Labels| -> BTreeSet<String> { if ["closing", "available", "forward", "forward-middle", "forward-last"].contains(&l[0]) { set(&["C27"]) } else { BTreeSet::new() } };
     Model { mt: "940", dims, render: Box::new(render), expected: Box::new(expected), modelled: vec!["C27"] }
 }
 
 fn mt941() -> Model {
-    let base = body_of("941", ":20:REF1\n:25:/ACC1\n:28:1/1\n:60F:C250615EUR100,00\n:90D:1EUR10,00\n:90C:2EUR20,00\n:62F:C250615EUR110,00\n:64:C250615EUR110,00\n:65:C250616EUR110,00");
-    let dims = vec![("currency-deviation", s(&["none", "same-prefix-other-code", "opening", "debits", "credits", "available", "forward"]))];
+    let base = body_of("941", ":20:REF1\n:25:/ACC1\n:28:1/1\n:60F:C250615EUR100,00\n:90D:1EUR10,00\n:90C:2EUR20,00\n:62F:C250615EUR110,00\n:64:C250615EUR110,00\n:65:C250616EUR110,00\n:65:C250617EUR110,00\n:65:C250618EUR110,00");
+    let dims = vec![("currency-deviation", s(&["none", "same-prefix-other-code", "opening", "debits", "credits", "available", "forward", "forward-middle", "forward-last"]))];
     let render = move |l: Labels| -> Value {
         let mut j = base.clone();
         let c = |slot: &str| if l[0] == slot { "USD" } else { "EUR" };
@@ -671,9 +673,11 @@ fn mt941() -> Model {
         j["90C"]["currency"] = json!(c("credits"));
         j["64"]["currency"] = json!(if l[0] == "same-prefix-other-code" { "EUX" } else { c("available") });
         j["65"][0]["currency"] = json!(c("forward"));
+        j["65"][1]["currency"] = json!(c("forward-middle"));
+        j["65"][2]["currency"] = json!(c("forward-last"));
         j
     };
-    let expected = |l: Labels| -> BTreeSet<String> { if ["opening", "debits", "credits", "available", "forward"].contains(&l[0]) { set(&["C27"]) } else { BTreeSet::new() } };
+    let expected = |l: Labels| -> BTreeSet<String> { if ["opening", "debits", "credits", "available", "forward", "forward-middle", "forward-last"].contains(&l[0]) { set(&["C27"]) } else { BTreeSet::new() } };
     Model { mt: "941", dims, render: Box::new(render), expected: Box::new(expected), modelled: vec!["C27"] }
 }
 
